@@ -1,6 +1,6 @@
 """C20 -- DEF data is extracted as written, with wildcards and via arrays expanded."""
 import random
-from harness import defgen as dg, circgen as cg, def_elab as de, def_text as dt
+from harness import defgen as dg, circgen as cg, def_elab as de, def_text as dt, def_route_src as drs
 
 THEOREMS = ['C20_wildcard_resolve', 'C20_wildcard_nearest', 'C20_via_location', 'C20_wire_vias_listing',
             'C20_via_array_members', 'C20_via_array_count', 'C20_via_array_nodup', 'C20_via_array_order',
@@ -16,6 +16,9 @@ THEOREMS = ['C20_wildcard_resolve', 'C20_wildcard_nearest', 'C20_via_location', 
             'C20_lexer_word', 'C20_lexer_ignores', 'C20_text_as_words', 'C20_words_roundtrip', 'C20_parse_words', 'C20_parse_words_comment',
             'C20_parse_print', 'C20_wf_id_iff', 'C20_wf_rvia_iff', 'C20_def_of_text_print', 'C20_def_of_text_words', 'C20_text_components',
             'C20_text_pins', 'C20_text_nets', 'C20_text_specialnets', 'C20_text_rows_tracks']
+
+# source tie (translation): Gen/DefRouteSrc.v = Model/DefRoute.v
+THEOREMS += ['C20_route_source_is_model', 'C20_dnet_source_is_model', 'C20_route_source_nonvacuous']
 
 WHAT = {'regular-net-wires': 'DefNet.wires raises TypeError on a regular net (int(None): wire() never sets a width)',
         'wildcard-wire-points': 'DefWire.wire_points / DefNet.wires leave a "*" coordinate as None instead of the previous value',
@@ -51,7 +54,16 @@ def features(gt):
 
 
 def run(ck):
-    ck.prove('C20', THEOREMS)
+    # translation (tie T): Gen/DefRouteSrc.v is regenerated from the current text of def_file.py; C20_route_source_is_model then re-proves
+    # that the translated DefWire.wire_points / .vias and DefNet.wires / .vias are the hand model the routing theorems are stated on
+    src_ok = drs.translate(ck)
+    proved, _ = ck.prove('C20', THEOREMS)
+    if not proved:
+        from vcheck import core
+        core.coq_make(core.support_targets())     # the models must exist for the correspondence even when a proof broke
+        if src_ok:
+            core.coq_make(['theories/Gen/DefRouteSrc.vo'])
+    src_cases, src_meta = [], []
     rng = random.Random(ck.seed * 7919 + 20)
     fails = {}            # key -> (replay input, message)   (first failing input per kind of failure)
     net_cases, wire_cases, misc_cases, meta = [], [], [], []
@@ -132,6 +144,11 @@ def run(ck):
                 act = dg.net_actual(got)
                 net_cases.append(dg.coq_net_case(n, act))
                 meta.append(('net', inp, f'{sec}[{n["name"]!r}]'))
+                src_cases.append(drs.net_case(got))
+                src_meta.append((inp, f'{sec}[{n["name"]!r}]'))
+                for w in (getattr(got, 'routed', None) or [])[:3]:
+                    src_cases.append(drs.wire_case(w))
+                    src_meta.append((inp, f'{sec}[{n["name"]!r}] wire'))
                 for kw in dg.WIRING_KW:
                     ws_gt = [w for it in n['items'] if it[0] == 'wiring' and it[1].lower() == kw for w in it[2]]
                     ws = getattr(got, kw, None) or []
@@ -160,6 +177,11 @@ def run(ck):
             dg.check_net('direct', net, special, dn, out)
             net_cases.append(dg.coq_net_case(net, dg.net_actual(dn)))
             meta.append(('net', inp, 'direct'))
+            src_cases.append(drs.net_case(dn))
+            src_meta.append((inp, 'direct'))
+            for w in (getattr(dn, 'routed', None) or [])[:3]:
+                src_cases.append(drs.wire_case(w))
+                src_meta.append((inp, 'direct wire'))
         except Exception as e:                                 # noqa
             out.append(('direct-raises', f'{type(e).__name__}: {e}'))
         for key, msg in out:
@@ -284,6 +306,21 @@ def run(ck):
                   '(exact per-layer / per-type listings incl. key order)', ran and not bad['net'], 'correspondence', f'failing nets {bad["net"][:8]}')
     ck.obligation(f'Coq model of DefWire.wire_points / DefWire.vias = implementation on {len(wire_cases)} parsed routing statements',
                   ran and not bad['wire'], 'correspondence', f'failing wires {bad["wire"][:8]}')
+    sbad, sran = [], True
+    if src_ok:
+        per = 150
+        souts = ck.coq_eval_many('defsrc', [drs.cases_file(src_cases[k:k + per]) for k in range(0, len(src_cases), per)], jobs=12)
+        for ci, (ok, out) in enumerate(souts):
+            lst = cg.parse_nat_list(out) if ok else None
+            if lst is None:
+                sran = False
+                sbad.append(('coqc', out[-600:]))
+            else:
+                sbad += [ci * per + j for j in lst]
+        ck.obligation(f'translated source Gen/DefRouteSrc.v = implementation on {len(src_cases)} real DefNet / DefWire objects (parsed files and '
+                      'directly built nets; objects and results written as the Python values they are): wire_points, vias, wires, vias '
+                      'listings incl. key order; raises iff the implementation raises', sran and not sbad, 'correspondence',
+                      f'failing cases {sbad[:8]}')
     ck.obligation(f'Coq model of the ROW / TRACKS branch of design_stmt = implementation on {len(misc_cases)} statements',
                   ran and not bad['misc'], 'correspondence', f'failing statements {bad["misc"][:8]}')
     ck.obligation('every routing feature of the property\'s quantifier was generated (wildcards, double wildcards, ext values, vias plain / with '
@@ -303,8 +340,9 @@ def run(ck):
              'the accept set of the LALR state at every token; exact correspondence of accepted language and tree on every generated text, accept '
              'sets and scanners compared with lark\'s tables) and the DefTransformer callbacks (Model/DefElab.v; exact correspondence per callback and '
              'per file); domain: code points < 256',
-             'modelled, not verified: DefWire.wire_points, DefWire.vias, DefNet.wires, DefNet.vias, accumulation of "+ ROUTED" statements, '
-             'ROW arithmetic (hand transcription Model/DefRoute.v of the repaired code; exact correspondence on every generated net)',
+             'DefWire.wire_points, DefWire.vias, DefNet.wires, DefNet.vias (Model/DefRoute.v): PROVED equal to the translated source '
+             '(C20_route_source_is_model) and still compared by exact correspondence on every generated net; modelled, not verified: the '
+             'accumulation of "+ ROUTED" statements and the ROW arithmetic (hand transcription of the repaired code; exact correspondence)',
              'domain of the theorems: first point of a routing statement fully specified (DEF requires it); ROW theorems need a non-negative '
              'step and one of the two counts = 1 (C20_row_negative_step_refuted shows max(dx, dy) is wrong otherwise)')
     order = ['parse-error', 'regular-net-wires', 'wildcard-wire-points', 'unrouted-net-listing', 'repeated-routed']
@@ -316,6 +354,11 @@ def run(ck):
         kk = sorted(mbad, key=lambda q: (q == 'coqc', q.startswith('table'), not q.startswith('text:corner'), q))[0]
         ck.fail('model-disagrees', f'Coq model and implementation disagree ({kk})', {'component': 'Model/DefElab.v / Model/DefText.v',
                 'input': mbad[kk][0] if isinstance(mbad[kk][0], dict) else {}, 'where': kk + ' ' + str(mbad[kk][0])[:300]}, found_input=bool(mbad[kk][0]))
+    if not fails and sbad:
+        first = sbad[0] if isinstance(sbad[0], int) else None
+        ck.fail('source-disagrees', 'translated source and implementation disagree', {'component': 'Gen/DefRouteSrc.v',
+                'input': src_meta[first][0] if first is not None else {}, 'where': src_meta[first][1] if first is not None else str(sbad)[:500]},
+                found_input=False)
     if not fails and any(bad.values()):
         first = bad['net'][0] if bad['net'] and isinstance(bad['net'][0], int) else None
         ck.fail('model-disagrees', 'Coq model and implementation disagree', {'component': 'Model/DefRoute.v',
